@@ -336,4 +336,61 @@ theorem splitWs_rep {r : Rep} {s : Bytes} (hm : Models r s) :
   rw [show AslModel.Str.splitWsLoop s 0 = splitWs s from rfl, splitWs_eq] at hf
   exact ⟨l, hl, hf⟩
 
+
+/-! ## `split(sep, out)` / `split(out)` into a caller-supplied array that may hold the operands -/
+
+theorem fillArray_spec : ∀ {parts : List Rep} {ts : List Bytes}, AllModels parts ts →
+    ∃ l, fillArray parts = some l ∧ AllModels l ts := by
+  intro parts ts h
+  induction h with
+  | nil => exact ⟨[], rfl, AllModels.nil⟩
+  | cons hp _ ih =>
+    obtain ⟨l, hl, hf⟩ := ih
+    obtain ⟨q, hq, hqm⟩ := assign_ext empty_models (hp.toList ▸ hp.2.2.1 : NulFree _)
+    rw [hp.toList] at hqm
+    refine ⟨q :: l, ?_, AllModels.cons hqm hf⟩
+    unfold fillArray at hl ⊢
+    simp only [List.mapM_cons, hq, hl, Option.bind_eq_bind, Option.bind_some, Option.pure_def]
+
+theorem AllModels.getElem? {ps : List Rep} {ts : List Bytes} (h : AllModels ps ts) (k : Nat) (hk : k < ps.length) :
+    ∃ p t, ps[k]? = some p ∧ ts[k]? = some t ∧ Models p t := by
+  induction h generalizing k with
+  | nil => simp at hk
+  | cons hp _ ih =>
+    cases k with
+    | zero => exact ⟨_, _, rfl, rfl, hp⟩
+    | succ k' =>
+      obtain ⟨p, t, h1, h2, h3⟩ := ih k' (by simpa using hk)
+      exact ⟨p, t, by simpa using h1, by simpa using h2, h3⟩
+
+theorem splitElem_spec {out : List Rep} {ts : List Bytes} (h : AllModels out ts) (k : Nat) (hk : k < out.length)
+    (sep : Bytes) (hs : sep ≠ []) :
+    ∃ l t, ts[k]? = some t ∧ splitElem out k sep = some l ∧ AllModels l (splitAbs sep [] t) := by
+  obtain ⟨p, t, h1, h2, hm⟩ := h.getElem? k hk
+  obtain ⟨parts, hp, hf⟩ := split_rep hm sep
+  rw [split_eq sep t hs] at hf
+  obtain ⟨l, hl, hlf⟩ := fillArray_spec hf
+  exact ⟨l, t, h2, by simp only [splitElem, h1, Option.bind_some, hp, hl], hlf⟩
+
+theorem splitSepElem_spec {r : Rep} {s : Bytes} (hm : Models r s) {out : List Rep} {ts : List Bytes} (h : AllModels out ts)
+    (k : Nat) (hk : k < out.length) (hne : ∀ t, ts[k]? = some t → t ≠ []) :
+    ∃ l t, ts[k]? = some t ∧ splitSepElem r out k = some l ∧ AllModels l (splitAbs t [] s) := by
+  obtain ⟨p, t, h1, h2, hpm⟩ := h.getElem? k hk
+  obtain ⟨parts, hp, hf⟩ := split_rep hm t
+  rw [split_eq t s (hne t h2)] at hf
+  obtain ⟨l, hl, hlf⟩ := fillArray_spec hf
+  exact ⟨l, t, h2, by simp only [splitSepElem, h1, Option.bind_some, hpm.toList, hp, hl], hlf⟩
+
+theorem splitWsElem_spec {out : List Rep} {ts : List Bytes} (h : AllModels out ts) (k : Nat) (hk : k < out.length) :
+    ∃ l t, ts[k]? = some t ∧ splitWsElem out k = some l ∧ AllModels l (tokensAbs t) := by
+  obtain ⟨p, t, h1, h2, hm⟩ := h.getElem? k hk
+  obtain ⟨parts, hp, hf⟩ := splitWs_rep hm
+  obtain ⟨l, hl, hlf⟩ := fillArray_spec hf
+  exact ⟨l, t, h2, by simp only [splitWsElem, h1, Option.bind_some, hp, hl], hlf⟩
+
+/-- before the repair the element was gone when it was read, whatever the array held -/
+theorem splitElem_unrepaired_counterexample (out : List Rep) (k : Nat) (sep : Bytes) :
+    splitElemUnrepaired out k sep = none := by
+  simp [splitElemUnrepaired]
+
 end AslProofs.Str
